@@ -4,10 +4,19 @@ import (
 	"verif/harness/hx"
 )
 
-func op(c int) Step         { return Step{Conn: c, Kind: "open"} }
-func cl(c int) Step         { return Step{Conn: c, Kind: "close"} }
-func tk(c, t, a int) Step   { return Step{Conn: c, Kind: "tok", T: t, A: a} }
-func connID(k int) int      { return 17 * (k + 1) } // distinct IP and distinct port per session
+func op(c int) Step       { return Step{Conn: c, Kind: "open"} }
+func cl(c int) Step       { return Step{Conn: c, Kind: "close"} }
+func tk(c, t, a int) Step { return Step{Conn: c, Kind: "tok", T: t, A: a} }
+func connID(k int) int    { return 17 * (k + 1) }    // distinct IP, port and destination address per session
+func connID6(k int) int   { return 4096 + 17*(k+1) } // the same with an IPv6 client address
+
+// a session id: IPv4 or IPv6 client
+func pickID(r *hx.Rand, k int) int {
+	if r.Chance(1, 3) {
+		return connID6(k)
+	}
+	return connID(k)
+}
 func cat(xs ...[]Step) []Step {
 	var out []Step
 	for _, x := range xs {
@@ -23,7 +32,7 @@ func number(svc int, tr []Step) []Step {
 		if out[k].Kind != "tok" {
 			continue
 		}
-		if svc == LDAP || (proto(svc) == SMTP && out[k].T == 5) {
+		if svc == LDAP || (proto(svc) == SMTP && (out[k].T == 5 || out[k].T == 10 || out[k].T == 12)) {
 			out[k].A = k + 1
 		}
 	}
@@ -64,26 +73,34 @@ func genTokens(r *hx.Rand, svc, c, n int) []Step {
 			case 8:
 				s = append(s, tk(c, r.PickInt([]int{9, 10}), 0))
 			default:
-				s = append(s, tk(c, 3, 0))
+				s = append(s, tk(c, r.PickInt([]int{3, 11, 11, 12}), 0))
 			}
 		}
 		if r.Chance(1, 4) {
 			s = append(s, tk(c, 8, 0))
 		}
 	case SMTP:
-		// track the dialogue state so that message text is only sent after "354"
-		st := 1
-		for i := 0; i < n+2 && st != 5; i++ {
+		// track the dialogue state so that message text is only sent after "354", body chunks
+		// only after a header chunk; sessions may end anywhere: in DATA, between BDAT chunks ...
+		st, pend := 1, false
+		for i := 0; i < n+3 && st != 5; i++ {
 			var t int
 			switch st {
 			case 1:
 				t = r.PickInt([]int{1, 1, 1, 1, 1, 1, 1, 6, 9})
 			case 2:
-				t = r.PickInt([]int{2, 2, 2, 2, 6, 7, 9, 3, 8, 1})
+				t = r.PickInt([]int{2, 2, 2, 2, 2, 6, 7, 9, 3, 8, 1})
 			case 3:
-				t = r.PickInt([]int{3, 3, 4, 4, 4, 7, 9, 6})
+				if pend {
+					t = r.PickInt([]int{11, 11, 13, 13, 13, 10, 12, 7, 9, 4, 3})
+				} else {
+					t = r.PickInt([]int{3, 3, 4, 4, 10, 10, 10, 12, 12, 7, 9, 6})
+				}
 			case 4:
 				t = 5
+				if r.Chance(1, 6) {
+					return s // the session ends inside DATA
+				}
 			}
 			s = append(s, tk(c, t, 0))
 			switch {
@@ -95,16 +112,25 @@ func genTokens(r *hx.Rand, svc, c, n int) []Step {
 				st = 3
 			case st == 2 && t == 8:
 				st = 5
+			case st == 2 && t == 7:
+				pend = false
+			case st == 2:
 			case st == 3 && t == 4:
 				st = 4
 			case st == 3 && t == 3:
+			case st == 3 && (t == 10 || t == 11):
+				pend = true
+			case st == 3 && (t == 12 || t == 13):
+				st, pend = 2, false
+			case st == 3 && t == 7:
+				st, pend = 2, false
 			case st == 3:
 				st = 2
 			case st == 4:
-				st = 2
+				st, pend = 2, false
 			}
 		}
-		if st == 4 {
+		if st == 4 && r.Chance(3, 4) {
 			s = append(s, tk(c, 5, 0))
 		}
 	case TFTP:
@@ -121,6 +147,11 @@ func genTokens(r *hx.Rand, svc, c, n int) []Step {
 			default:
 				s = append(s, tk(c, r.PickInt([]int{5, 6}), 0))
 			}
+		}
+	case MCUDP:
+		// up to and beyond the limiter burst
+		for i := 0; i < n+r.PickInt([]int{0, 0, 2, 4}); i++ {
+			s = append(s, tk(c, r.PickInt([]int{1, 2, 2, 3}), 0))
 		}
 	case TELNET:
 		for i := 0; i < n; i++ {
@@ -153,7 +184,7 @@ func genTokens(r *hx.Rand, svc, c, n int) []Step {
 
 func genSession(r *hx.Rand, svc, c, n int, mustClose bool) []Step {
 	s := genTokens(r, svc, c, n)
-	if svc == TFTP {
+	if svc == TFTP || svc == MCUDP {
 		return s
 	}
 	s = append([]Step{op(c)}, s...)
@@ -227,13 +258,13 @@ func fixedScripts(svc int, three bool) [][]Step {
 	case LDAP:
 		ss = [][]Step{{op(a), tk(a, 1, 0), tk(a, 4, 0), tk(a, 4, 0)}, {op(b), tk(b, 4, 0), tk(b, 3, 0), cl(b)}, {op(c), tk(c, 2, 0)}}
 	case FTP:
-		ss = [][]Step{{op(a), tk(a, 1, 1), tk(a, 2, 1), tk(a, 4, 1), tk(a, 3, 0)}, {op(b), tk(b, 1, 1), tk(b, 2, 1), tk(b, 3, 0)}, {op(c), tk(c, 6, 0)}}
+		ss = [][]Step{{op(a), tk(a, 1, 1), tk(a, 2, 1), tk(a, 4, 1), tk(a, 11, 0)}, {op(b), tk(b, 1, 1), tk(b, 2, 1), tk(b, 11, 0)}, {op(c), tk(c, 6, 0)}}
 		if three {
 			ss[0] = []Step{op(a), tk(a, 1, 1), tk(a, 2, 1), tk(a, 4, 1)}
 			ss[1] = []Step{op(b), tk(b, 1, 1), tk(b, 2, 1)}
 		}
 	case SMTP:
-		ss = [][]Step{{op(a), tk(a, 1, 0), tk(a, 2, 0), tk(a, 4, 0), tk(a, 5, 0)}, {op(b), tk(b, 1, 0), tk(b, 6, 0), cl(b)}, {op(c), tk(c, 9, 0)}}
+		ss = [][]Step{{op(a), tk(a, 1, 0), tk(a, 2, 0), tk(a, 10, 0), tk(a, 13, 0)}, {op(b), tk(b, 1, 0), tk(b, 2, 0), tk(b, 10, 0)}, {op(c), tk(c, 9, 0)}}
 		if three {
 			ss[0] = []Step{op(a), tk(a, 1, 0), tk(a, 2, 0), tk(a, 4, 0)}
 			ss[1] = []Step{op(b), tk(b, 1, 0), cl(b)}
@@ -244,6 +275,8 @@ func fixedScripts(svc int, three bool) [][]Step {
 			ss[0] = []Step{tk(a, 2, 1), tk(a, 3, 1), tk(a, 4, 2)}
 			ss[1] = []Step{tk(b, 2, 2), tk(b, 4, 1), tk(b, 4, 2)}
 		}
+	case MCUDP:
+		ss = [][]Step{{tk(a, 2, 0), tk(a, 1, 0), tk(a, 2, 0), tk(a, 3, 0), tk(a, 2, 0)}, {tk(b, 2, 0), tk(b, 3, 0), tk(b, 1, 0)}, {tk(c, 2, 0), tk(c, 2, 0)}}
 	case TELNET:
 		ss = [][]Step{{op(a), tk(a, 1, 0), tk(a, 1, 0), tk(a, 2, 0)}, {op(b), tk(b, 2, 0), tk(b, 3, 0), tk(b, 1, 0)}, {op(c), tk(c, 3, 0)}}
 	case REDIS:
@@ -260,6 +293,9 @@ func fixedScripts(svc int, three bool) [][]Step {
 			}
 		}
 		return ss
+	}
+	if svc == SMTP2 {
+		return [][]Step{ss[0][:4], ss[1][:3]}
 	}
 	return ss[:2]
 }
@@ -299,6 +335,18 @@ func corpus() []Input {
 		mk(SMTP2, op(a), tk(a, 1, 0), tk(a, 2, 0), tk(a, 4, 0), tk(a, 5, 0), tk(a, 6, 0), tk(a, 2, 0), tk(a, 4, 0), tk(a, 5, 0), tk(a, 8, 0)),
 		mk(SMTP2, op(b), op(a), tk(a, 1, 0), tk(a, 2, 0), tk(a, 4, 0), tk(a, 5, 0), tk(a, 6, 0), tk(b, 1, 0), tk(b, 6, 0), tk(a, 8, 0), tk(b, 8, 0)),
 		mk(SMTP2, op(a), op(b), tk(b, 1, 0), tk(a, 1, 0), tk(b, 2, 0), tk(a, 2, 0), tk(b, 4, 0), tk(a, 4, 0), tk(b, 5, 0), tk(a, 5, 0), op(c), tk(c, 1, 0), tk(c, 2, 0), tk(c, 4, 0), tk(c, 5, 0)),
+		// smtp: A abandons a chunked transfer (ends between BDAT chunks); B then sends a chunked mail
+		mk(SMTP, op(a), tk(a, 1, 0), tk(a, 2, 0), tk(a, 10, 0), cl(a), op(b), tk(b, 1, 0), tk(b, 2, 0), tk(b, 12, 0), tk(b, 2, 0), tk(b, 10, 0), tk(b, 11, 0), tk(b, 13, 0), tk(b, 8, 0)),
+		mk(SMTP, op(a), tk(a, 1, 0), tk(a, 2, 0), tk(a, 10, 0), tk(a, 11, 0), op(b), tk(b, 1, 0), tk(b, 2, 0), tk(b, 12, 0), tk(a, 9, 0), tk(a, 8, 0), op(c), tk(c, 1, 0), tk(c, 2, 0), tk(c, 10, 0), tk(c, 13, 0)),
+		// smtp: A ends inside DATA
+		mk(SMTP, op(a), tk(a, 1, 0), tk(a, 2, 0), tk(a, 4, 0), cl(a), op(b), tk(b, 1, 0), tk(b, 2, 0), tk(b, 4, 0), tk(b, 5, 0)),
+		// ftp: passive mode on two destination addresses, sockets never used
+		mk(FTP, op(a), tk(a, 1, 1), tk(a, 2, 1), tk(a, 11, 0), op(b), tk(b, 1, 1), tk(b, 2, 1), tk(b, 11, 0), tk(a, 11, 0), tk(b, 12, 0), tk(a, 8, 0), tk(b, 11, 0)),
+		mk(FTP, op(a), tk(a, 1, 1), tk(a, 2, 1), tk(a, 11, 0), cl(a), op(connID6(1)), tk(connID6(1), 1, 1), tk(connID6(1), 2, 1), tk(connID6(1), 11, 0)),
+		// rate-limited UDP services: other clients (IPv4 and IPv6) use up their own budget, then the probe
+		mk(TFTP, tk(connID6(0), 1, 1), tk(connID6(0), 1, 2), tk(connID6(0), 1, 3), tk(connID6(0), 1, 1), tk(connID6(0), 1, 2), tk(connID6(1), 2, 1), tk(connID6(1), 4, 1), tk(a, 1, 1), tk(connID6(2), 1, 1)),
+		mk(MCUDP, tk(connID6(0), 2, 0), tk(connID6(0), 2, 0), tk(connID6(0), 1, 0), tk(connID6(0), 3, 0), tk(connID6(0), 2, 0), tk(connID6(1), 2, 0), tk(a, 2, 0), tk(connID6(2), 2, 0)),
+		mk(MCUDP, tk(a, 2, 0), tk(a, 2, 0), tk(a, 2, 0), tk(a, 2, 0), tk(a, 2, 0), tk(b, 2, 0), tk(32, 1, 0), tk(33, 1, 0)),
 		mk(TELNET, op(a), op(b), tk(a, 1, 0), tk(b, 2, 0), tk(a, 1, 0), tk(b, 3, 0), tk(a, 2, 0), tk(b, 1, 0), cl(a), tk(b, 2, 0)),
 		mk(REDIS, op(a), op(b), tk(a, 1, 0), tk(b, 2, 0), tk(a, 5, 0), tk(b, 3, 0), tk(a, 1, 0)),
 		mk(MEMCACHED, op(a), op(b), tk(a, 4, 0), tk(b, 2, 0), tk(a, 5, 0), tk(b, 3, 0), tk(b, 1, 0)),
@@ -308,11 +356,11 @@ func corpus() []Input {
 
 func generate(r *hx.Rand, tier string) []Input {
 	ins := corpus()
-	nRandom, nHist := 32, 10
+	nRandom, nHist := 22, 8
 	if tier != "quick" {
 		nRandom, nHist = 450, 100
 	}
-	for svc := LDAP; svc <= SMTP2; svc++ {
+	for svc := LDAP; svc <= MCUDP; svc++ {
 		// exhaustive: every interleaving of two fixed scripts (and of three short ones beyond quick)
 		for _, m := range allMerges(fixedScripts(svc, false)) {
 			ins = append(ins, Input{Svc: svc, Trace: number(svc, m)})
@@ -327,7 +375,7 @@ func generate(r *hx.Rand, tier string) []Input {
 			ns := r.PickInt([]int{2, 2, 3})
 			var ss [][]Step
 			for k := 0; k < ns; k++ {
-				ss = append(ss, genSession(r, svc, connID(k), r.Range(1, 5), false))
+				ss = append(ss, genSession(r, svc, pickID(r, k), r.Range(1, 5), false))
 			}
 			ins = append(ins, Input{Svc: svc, Trace: number(svc, mergeRandom(r, ss))})
 		}
@@ -336,9 +384,9 @@ func generate(r *hx.Rand, tier string) []Input {
 			n := r.PickInt([]int{1, 1, 2, 3, 5, 8})
 			var tr []Step
 			for k := 0; k < n; k++ {
-				tr = append(tr, genSession(r, svc, connID(k+1), r.Range(1, 4), true)...)
+				tr = append(tr, genSession(r, svc, pickID(r, k+1), r.Range(1, 4), true)...)
 			}
-			tr = append(tr, genSession(r, svc, connID(0), r.Range(2, 6), false)...)
+			tr = append(tr, genSession(r, svc, pickID(r, 0), r.Range(2, 6), false)...)
 			ins = append(ins, Input{Svc: svc, Trace: number(svc, tr)})
 		}
 	}
